@@ -3,7 +3,16 @@ back through cif_container_get_value, packet iteration and cif_walk.
 
 Oracle (implementation only): the storing call succeeds and each of the three read-backs dumps (through the public API:
 kind, text, quoted, cif_value_get_number / cif_value_get_su as integers, element order, key spelling) exactly as the
-original did before it was stored."""
+original did before it was stored.
+
+Two more routes (quick tier too):
+  bigparse  — a character value of 70 000 / 140 000 / 204 000 units (and lengths around the 131 200-unit scan buffer), as a
+              text field and as a quoted string, preceded by short items, parsed from a document the executor renders; the
+              value read back (get_value, iteration, walk) must have the text written (long texts are compared as length +
+              hash, and the executor reports the first differing index);
+  itsession — one packet iterator: update of packet 1 (must succeed), an update at packet 2 with a packet carrying an item
+              of another loop (must be rejected), update of packet 3 (must succeed), close; read back by iteration: packets
+              1 and 3 hold the value, packet 2 still holds the unknown value it had."""
 import os, re, sys
 sys.path.insert(0, os.path.dirname(os.path.abspath(__file__)))
 from common import rng, hexs
@@ -15,7 +24,12 @@ HARNESS = {"source": "x_storeval.c", "exclude_objs": ["value"], "extra_sources":
            "cflags": ["-DVERIF_CASE_SECONDS=2"], "leak_clean": True}
 RULE = ("random values (all kinds; nested lists/tables to depth 4 quick / 8 thorough; strings 0-600 units of well-formed text incl. "
         "supplementary characters; numbers in every accepted spelling incl. huge and tiny exponents; serialised sizes around "
-        "512 * 1.5^k) x 5 storing routes x 3 ways of changing the caller's object afterwards; non-trivial = a list, table or number")
+        "512 * 1.5^k) x 5 storing routes x 3 ways of changing the caller's object afterwards; plus route bigparse: character values of "
+        "70 000 / 140 000 / 204 000 units and random lengths around the 131 200-unit scan buffer, as text field and as quoted string, "
+        "after three short items, parsed from a document rendered by the executor; plus route itsession: one packet iterator, update "
+        "packet 1, rejected update (item of another loop) at packet 2, update packet 3, close, read back; "
+        "non-trivial = a list, table or number, every bigparse and itsession case")
+BIG_LENGTHS = [70000, 140000, 204000]
 ROUTES = ["set", "additem", "addpkt", "update", "parse"]
 EXTREME_NUMBERS = ["1e400", "1e-400", "0e99999", "1e99999999", "-1e-99999999", "0.0e-5000", "-0", "+0.000", "00012.50(07)",
                    "9007199254740993", "123456789012345678901234567890123456789012345678901234567890(12345678901234567890)",
@@ -69,6 +83,19 @@ def for_parse(tree):
 def generate(seed, tier):
     r = rng(seed, FAMILY)
     quick = tier == "quick"
+    for n in BIG_LENGTHS:
+        for style in "tq":
+            yield "storeval bigparse %d %s %d" % (n, style, r.randint(0, 10 ** 6))
+    for _ in range(6 if quick else 60):
+        n = r.choice([r.randint(60000, 70000), r.randint(129000, 134000), r.randint(65000, 300000), 131200 + r.randint(-70, 70)])
+        yield "storeval bigparse %d %s %d" % (n, r.choice("tq"), r.randint(0, 10 ** 6))
+    for i in range(300 if quick else 5000):
+        mode = r.random()
+        if mode < 0.4:
+            t = leaf(r)
+        else:
+            t = G.rand_tree(r, r.randint(1, 3 if quick else 6), widths=(0, 1, 2, 3, 4), maxlen=r.choice([8, 40, 600]), leaf=leaf, unstable_keys=True)
+        yield "storeval itsession 0 %s" % " ".join(G.value_tokens(t))
     for i in range(1500 if quick else 25000):
         mode = r.random()
         if mode < 0.3:
@@ -84,22 +111,28 @@ def generate(seed, tier):
         yield "storeval %s %d %s" % (route, r.randint(0, 2), " ".join(G.value_tokens(t)))
 
 
+SESSION = re.compile(r"^sv rc=(-?\d+) u=(.*?) o=(.*?) i=(.*?) m=(.*)$")
 FIELDS = re.compile(r"^sv rc=(-?\d+) o=(.*?) g=(.*?) i=(.*?) w=(.*?) m=(.*)$")
 
 
 def oracle(req, impl):
     if not impl.startswith("sv "):
         return None
+    route = req.split(" ")[1]
+    if route == "itsession":
+        return session_oracle(impl)
     m = FIELDS.match(impl)
     if not m:
         rc = re.match(r"^sv rc=(-?\d+)", impl)
         if rc and rc.group(1) != "0":
             return "storing the value failed with code %s" % rc.group(1)
         return "unexpected observation: " + impl[:200]
-    rc, o, g, i, w, _ = m.groups()
+    rc, o, g, i, w, verdict = m.groups()
     if rc != "0":
         return "storing the value failed with code %s" % rc
-    route = req.split(" ")[1]
+    if route == "bigparse" and verdict != "same":
+        return "the %s-unit value read back after parsing differs from the text written (%s): written %s, read %s" % (
+            req.split(" ")[2], verdict, o[:80], g[:80])
     n = 2 if route == "additem" else 1
     if g != o:
         return "cif_container_get_value returns a value that differs from the one stored: stored %s, read %s" % (o[:200], g[:200])
@@ -110,10 +143,47 @@ def oracle(req, impl):
     return None
 
 
+def session_oracle(impl):
+    m = SESSION.match(impl)
+    if not m:
+        return "unexpected observation: " + impl[:200]
+    rc, u, o, i, _ = m.groups()
+    us = u.split(",")
+    rows = split_top(i)
+    if us[0] == "0" and len(rows) == 3 and rows[0] != o:
+        return ("the first successful update is not there after the iterator is closed (update codes %s, close/iteration code %s): "
+                "stored %s, read %s" % (u, rc, o[:200], rows[0][:200]))
+    if rc != "0":
+        return "the iterator session failed with code %s (update codes %s)" % (rc, u)
+    if us[1] != "rej":
+        return "an update with an item of another loop was not rejected (%s)" % us[1]
+    if us[0] != "0" or us[2] != "0":
+        if us[0] == us[2] == "2":
+            return None if i == "U,U,U" else "refused updates left something behind: " + i[:200]
+        return "update_packet failed with codes %s / %s" % (us[0], us[2])
+    if len(rows) != 3:
+        return "expected three packets, read " + i[:200]
+    if rows[0] != o:
+        return "the first successful update is not there after the iterator is closed: stored %s, read %s" % (o[:200], rows[0][:200])
+    if rows[2] != o:
+        return "the last successful update is not there after the iterator is closed: stored %s, read %s" % (o[:200], rows[2][:200])
+    if rows[1] != "U":
+        return "the rejected update left something behind: " + rows[1][:200]
+    return None
+
+
+def split_top(s):
+    """split a comma-separated sequence of value dumps (dumps contain no commas outside of what fdump_pub writes: none)"""
+    return s.split(",")
+
+
 def agree(impl, model, req=None):
     """the model predicts the result code and the field-level dump of the value read back"""
     if impl == model:
         return True
+    m = SESSION.match(impl)
+    if m:
+        return model == "sv rc=%s u=%s m=%s" % (m.group(1), m.group(2), m.group(5))
     m = FIELDS.match(impl)
     if m:
         return model == "sv rc=%s m=%s" % (m.group(1), m.group(6))
@@ -122,11 +192,15 @@ def agree(impl, model, req=None):
 
 
 def _first(req):
+    if req.split(" ")[1] == "bigparse":
+        return "C"
     return [x for x in req.split(" ")[3:] if not x.startswith("@")][0]
 
 
 def nontrivial(req, impl):
     k = _first(req)
+    if req.split(" ")[1] in ("bigparse", "itsession"):
+        return True
     return k in ("[", "{") or k.startswith("M")
 
 
@@ -139,7 +213,19 @@ def classify(req, impl):
 
 def shrink(req):
     t = req.split(" ")
+    if t[1] == "bigparse":
+        n = int(t[2])
+        for c in (n // 2, n - 10000, n - 1000, n - 100):
+            if c > 0:
+                yield "storeval bigparse %d %s %s" % (c, t[3], t[4])
+        return
     import ser
+    if t[1] == "itsession":
+        # the unknown value is what the packets hold before the session: a session storing it shows nothing
+        for cand in ser.shrink("ser v " + " ".join(x for x in t[3:] if not x.startswith("@"))):
+            if cand[6:].strip() != "U":
+                yield " ".join(t[:3]) + " " + cand[6:]
+        return
     for cand in ser.shrink("ser v " + " ".join(x for x in t[3:] if not x.startswith("@"))):
         yield " ".join(t[:3]) + " " + cand[6:]
 
